@@ -96,6 +96,10 @@ class SV:
         return self
 
 
+import numbers as _numbers
+_numbers.Number.register(SV)      # library code dispatches scalars with isinstance(x, Number)
+
+
 def mk(t, lo=None, hi=None):
     """wrap a z3 term, folding constants to Python values"""
     if z3.is_true(t):
@@ -402,23 +406,34 @@ def S_xor(a, b):
 
 
 def _solver_bounds(a):
-    """tighten the bounds of a symbolic int to [0, 2^k) with the solver when the syntactic interval is too weak"""
+    """tighten the bounds of a symbolic int to a small range with the solver when the syntactic interval is too weak"""
     if not isinstance(a, SV) or a.is_bool() or a.is_real():
         return a
-    if a.lo is not None and a.hi is not None and a.lo >= 0 and a.hi < 256:
+    if a.lo is not None and a.hi is not None and a.lo >= -128 and a.hi < 256:
         return a
     if not ENGINE.has_path:
         return a
-    if not ENGINE.prove(a.t >= 0):
+    lo = hi = None
+    if ENGINE.prove(a.t >= 0):
+        lo = 0
+    else:
+        for k in (1, 2, 3, 4, 7):
+            if ENGINE.prove(a.t >= -(1 << k)):
+                lo = -(1 << k)
+                break
+    if lo is None:
         return a
     for k in (1, 2, 3, 4, 8):
         if ENGINE.prove(a.t < (1 << k)):
-            return SV(a.t, 0, (1 << k) - 1)
-    return a
+            hi = (1 << k) - 1
+            break
+    if hi is None:
+        return a
+    return SV(a.t, lo, hi)
 
 
 def _xor_bits(a, b):
-    """a ^ b for small non-negative integers by exact bit decomposition (bounds from the solver if needed)"""
+    """a ^ b for small integers by exact bit decomposition of their two's complement (bounds from the solver if needed)"""
     if is_conc(a) and is_conc(b):
         return a ^ b
     if is_conc(a) and _pyval(a) == 0:
@@ -427,15 +442,25 @@ def _xor_bits(a, b):
         return a
     a, b = _solver_bounds(a), _solver_bounds(b)
     (la, ha), (lb, hb) = _bnd(a), _bnd(b)
-    if None in (la, ha, lb, hb) or la < 0 or lb < 0 or max(ha, hb) >= 256:
+    if None in (la, ha, lb, hb) or min(la, lb) < -128 or max(ha, hb) >= 256:
         raise UnsupportedSymbolicOp(f"integer xor of unbounded symbolic values {a!r} ^ {b!r}")
     ta, tb = TI(a), TI(b)
-    nbits = max(ha, hb).bit_length()
+    if la >= 0 and lb >= 0:
+        nbits = max(ha, hb).bit_length()
+        tot = z3.IntVal(0)
+        for k in range(nbits):
+            w = 1 << k
+            tot = tot + ((ta / w) % 2 + (tb / w) % 2) % 2 * w
+        return mk(simp(tot), 0, (1 << nbits) - 1)
+    # signed: work modulo 2^(n+1) where -2^n <= v < 2^n, then re-centre
+    n = max(max(ha, hb).bit_length(), (-min(la, lb) - 1).bit_length() if min(la, lb) < 0 else 0)
+    m = 1 << (n + 1)
+    ua, ub = ta % m, tb % m
     tot = z3.IntVal(0)
-    for k in range(nbits):
+    for k in range(n + 1):
         w = 1 << k
-        tot = tot + ((ta / w) % 2 + (tb / w) % 2) % 2 * w
-    return mk(simp(tot), 0, (1 << nbits) - 1)
+        tot = tot + ((ua / w) % 2 + (ub / w) % 2) % 2 * w
+    return mk(simp(z3.If(tot >= (1 << n), tot - m, tot)), -(1 << n), (1 << n) - 1)
 
 
 class XorSet:
